@@ -415,3 +415,92 @@ Proof.
   - pose proof u_le. cbn. lra.
   - apply Rle_trans with (bpow radix2 0); [apply bpow_le; lia|cbn; lra].
 Qed.
+
+(* ---- forgetting on binary64 (C17): two histories with the same last n inputs give outputs that differ by at most the sum
+        of the two forward error bounds ---- *)
+Lemma Forall2_last {A B} (P : A -> B -> Prop) l1 l2 d1 d2 : Forall2 P l1 l2 -> l1 <> [] -> P (last l1 d1) (last l2 d2).
+Proof.
+  induction 1 as [|a b l1 l2 Hab H IH]; intros Hn; [congruence|].
+  destruct l1 as [|a' l1]; inversion H; subst; [exact Hab|]. apply IH. discriminate.
+Qed.
+
+Lemma last_prefixes' {A} (h xs : list A) : xs <> [] -> last (prefixes_from h xs) [] = h ++ xs.
+Proof.
+  revert h; induction xs as [|x xs IH]; intros h Hn; [congruence|]. cbn [prefixes_from].
+  destruct xs as [|y ys]; [reflexivity|].
+  change (last ((h ++ [x]) :: prefixes_from (h ++ [x]) (y :: ys)) []) with (last (prefixes_from (h ++ [x]) (y :: ys)) []).
+  rewrite IH by discriminate. rewrite <- app_assoc. reflexivity.
+Qed.
+
+Theorem sma_float_forgets : forall p s xs1 xs2 M, sma_new O p = Ok s -> (p < 9007199254740992)%N -> 0 <= M ->
+  Forall (okin M) xs1 -> Forall (okin M) xs2 -> 3 * ((INR (N.to_nat p) + 2) * M + 1) <= BIG ->
+  INR (length xs1) * u <= / 16 -> INR (length xs2) * u <= / 16 -> xs1 <> [] -> xs2 <> [] ->
+  lastn (N.to_nat p) xs1 = lastn (N.to_nat p) xs2 ->
+  Rabs (FR (last (sma_outs' O s xs1) 0%float) - FR (last (sma_outs' O s xs2) 0%float)) <=
+  out_bound M (length xs1) + out_bound M (length xs2).
+Proof.
+  intros p s xs1 xs2 M H Hp HM F1 F2 Hbig T1 T2 N1 N2 E.
+  pose proof (sma_float_error p s xs1 M H Hp HM F1 Hbig T1) as A1.
+  pose proof (sma_float_error p s xs2 M H Hp HM F2 Hbig T2) as A2.
+  assert (O1 : sma_outs' O s xs1 <> []).
+  { intros Z. rewrite Z in A1. inversion A1 as [Q|]; subst. destruct xs1; [congruence|discriminate]. }
+  assert (O2 : sma_outs' O s xs2 <> []).
+  { intros Z. rewrite Z in A2. inversion A2 as [Q|]; subst. destruct xs2; [congruence|discriminate]. }
+  pose proof (Forall2_last _ _ _ 0%float [] A1 O1) as [_ B1]. pose proof (Forall2_last _ _ _ 0%float [] A2 O2) as [_ B2].
+  rewrite last_prefixes' in B1, B2 by assumption. cbn [app] in B1, B2. rewrite E in B1.
+  set (mu := mean (map FR (lastn (N.to_nat p) xs2))) in *.
+  replace (FR (last (sma_outs' O s xs1) 0%float) - FR (last (sma_outs' O s xs2) 0%float))
+    with ((FR (last (sma_outs' O s xs1) 0%float) - mu) - (FR (last (sma_outs' O s xs2) 0%float) - mu)) by ring.
+  eapply Rle_trans; [apply Rabs_triang|]. rewrite Rabs_Ropp. lra.
+Qed.
+
+Lemma out_bound2_tau M T1 T2 : (1 <= T2 <= T1)%nat -> bpow radix2 (-960) <= M ->
+  out_bound M T1 + out_bound M T2 <= (1 / 10 ^ 12 + 1 / 10 ^ 15 * (INR T1 * R_sqrt.sqrt (INR T1))) * M.
+Proof.
+  intros [H2 H12] HMl. unfold out_bound. set (t := INR T1). set (t2 := INR T2).
+  assert (Ht2 : 1 <= t2) by (unfold t2; change 1 with (INR 1); apply le_INR; exact H2).
+  assert (Ht : t2 <= t) by (unfold t, t2; apply le_INR; exact H12).
+  assert (HM0 : 0 < M) by (eapply Rlt_le_trans; [apply bpow_gt_0|exact HMl]).
+  assert (Hu : u <= 12 / 10 ^ 17) by (unfold u; cbn; lra).
+  assert (He : eta <= / 10 ^ 30 * M).
+  { unfold eta. change (3 - emax - prec)%Z with (-114 + -960)%Z. rewrite bpow_plus.
+    apply Rle_trans with (/ 2 * (bpow radix2 (-114) * M)); [apply Rmult_le_compat_l; [lra|]; apply Rmult_le_compat_l; [apply bpow_ge_0|exact HMl]|].
+    assert (Hc : / 2 * bpow radix2 (-114) <= / 10 ^ 30) by (cbn; lra).
+    rewrite <- Rmult_assoc. apply Rmult_le_compat_r; lra. }
+  pose proof u_pos as Hu0. pose proof eta_pos as He0.
+  assert (A1 : (9 * t + 1) * u * M <= (9 * t + 1) * (12 / 10 ^ 17) * M) by (apply Rmult_le_compat_r; [lra|]; apply Rmult_le_compat_l; lra).
+  assert (A2 : (9 * t2 + 1) * u * M <= (9 * t + 1) * (12 / 10 ^ 17) * M).
+  { apply Rmult_le_compat_r; [lra|]. apply Rle_trans with ((9 * t + 1) * u); [apply Rmult_le_compat_r; lra|apply Rmult_le_compat_l; lra]. }
+  assert (B1 : (5 * t + 1) * eta <= (5 * t + 1) * (/ 10 ^ 30 * M)) by (apply Rmult_le_compat_l; lra).
+  assert (B2 : (5 * t2 + 1) * eta <= (5 * t + 1) * (/ 10 ^ 30 * M)).
+  { apply Rle_trans with ((5 * t + 1) * eta); [apply Rmult_le_compat_r; lra|apply Rmult_le_compat_l; lra]. }
+  assert (Hs0 : 0 <= t * R_sqrt.sqrt t) by (apply Rmult_le_pos; [lra|apply sqrt_pos]).
+  destruct (Rle_dec t 400) as [Hs|Hl].
+  - assert (Hc : 2 * ((9 * t + 1) * (12 / 10 ^ 17)) + 2 * ((5 * t + 1) * / 10 ^ 30) <= 1 / 10 ^ 12) by lra.
+    assert (Hc2 : (2 * ((9 * t + 1) * (12 / 10 ^ 17)) + 2 * ((5 * t + 1) * / 10 ^ 30)) * M <= (1 / 10 ^ 12) * M) by (apply Rmult_le_compat_r; lra).
+    assert (0 <= 1 / 10 ^ 15 * (t * R_sqrt.sqrt t) * M) by (apply Rmult_le_pos; [apply Rmult_le_pos; lra|lra]). lra.
+  - assert (Hsq : 20 <= R_sqrt.sqrt t) by (rewrite <- (sqrt_square 20) by lra; apply sqrt_le_1_alt; lra).
+    assert (Hts : 20 * t <= t * R_sqrt.sqrt t) by (rewrite (Rmult_comm 20 t); apply Rmult_le_compat_l; lra).
+    assert (Hc : 2 * ((9 * t + 1) * (12 / 10 ^ 17)) + 2 * ((5 * t + 1) * / 10 ^ 30) <= 1 / 10 ^ 15 * (20 * t)) by lra.
+    assert (Hc2 : (2 * ((9 * t + 1) * (12 / 10 ^ 17)) + 2 * ((5 * t + 1) * / 10 ^ 30)) * M <= (1 / 10 ^ 15 * (t * R_sqrt.sqrt t)) * M).
+    { apply Rmult_le_compat_r; [lra|]. lra. }
+    assert (0 <= 1 / 10 ^ 12 * M) by (apply Rmult_le_pos; lra). lra.
+Qed.
+
+(* the full-history output and the output of a fresh instance fed only a suffix that contains the last n inputs agree within
+   tau(t) * M, t = length of the full history *)
+Theorem sma_float_forgets_tau : forall p s xs1 xs2 M, sma_new O p = Ok s -> (p < 9007199254740992)%N -> bpow radix2 (-960) <= M ->
+  Forall (okin M) xs1 -> Forall (okin M) xs2 -> 3 * ((INR (N.to_nat p) + 2) * M + 1) <= BIG ->
+  INR (length xs1) * u <= / 16 -> xs2 <> [] -> (length xs2 <= length xs1)%nat ->
+  lastn (N.to_nat p) xs1 = lastn (N.to_nat p) xs2 ->
+  Rabs (FR (last (sma_outs' O s xs1) 0%float) - FR (last (sma_outs' O s xs2) 0%float)) <=
+  (1 / 10 ^ 12 + 1 / 10 ^ 15 * (INR (length xs1) * R_sqrt.sqrt (INR (length xs1)))) * M.
+Proof.
+  intros p s xs1 xs2 M H Hp HMl F1 F2 Hbig T1 N2 L E.
+  assert (HM : 0 <= M) by (eapply Rle_trans; [apply bpow_ge_0|exact HMl]).
+  assert (N1 : xs1 <> []) by (destruct xs1; [destruct xs2; [congruence|cbn in L; lia]|discriminate]).
+  assert (T2 : INR (length xs2) * u <= / 16).
+  { eapply Rle_trans; [|exact T1]. apply Rmult_le_compat_r; [pose proof u_pos; lra|apply le_INR; exact L]. }
+  eapply Rle_trans; [apply (sma_float_forgets p s xs1 xs2 M H Hp HM F1 F2 Hbig T1 T2 N1 N2 E)|].
+  apply out_bound2_tau; [|exact HMl]. split; [destruct xs2; [congruence|cbn; lia]|exact L].
+Qed.
